@@ -7,6 +7,7 @@ import (
 	"encoding/json"
 	"fmt"
 	"reflect"
+	"runtime"
 	"sort"
 	"strconv"
 	"strings"
@@ -51,6 +52,8 @@ type Runner struct {
 	disp     *listener.Dispatch
 	subCount int
 	keep     []interface{} // keeps listener objects alive
+	gcEvery  int
+	opsSeen  int
 	// statistics for evidence
 	opCount    map[string]int
 	panicCount map[string]int
@@ -426,6 +429,12 @@ func (r *Runner) Exec(line string) (out []string) {
 		}
 	}()
 	r.opCount[cmd]++
+	if r.gcEvery > 0 {
+		r.opsSeen++
+		if r.opsSeen%r.gcEvery == 0 {
+			runtime.GC()
+		}
+	}
 	res := r.exec(cmd, &toks{t: fields[1:]})
 	return append([]string{res}, r.events...)
 }
@@ -831,6 +840,10 @@ func (r *Runner) exec(cmd string, t *toks) string {
 		q.pos = false
 		q.q.Close()
 		return r.ok("")
+	case "gc":
+		t.end()
+		runtime.GC()
+		return r.ok("")
 	case "snapshot":
 		t.end()
 		return r.ok(r.snapshot())
@@ -963,6 +976,8 @@ func b01(b bool) string {
 // NewRunnerKeep returns a fresh runner that keeps the statistics of the old one.
 func NewRunnerKeep(old *Runner) *Runner {
 	n := NewRunner()
+	n.gcEvery = old.gcEvery
+	n.opsSeen = old.opsSeen
 	n.opCount = old.opCount
 	n.panicCount = old.panicCount
 	return n
